@@ -168,7 +168,7 @@ example :
        [("type".toList, "integer".toList), ("name".toList, "b".toList)],
        [("type".toList, "end repeat".toList)], [("type".toList, "end group".toList)]]
     let els := chainsOfRows "data".toList true survey
-    (okVal (convert "data".toList (entitySub els "data".toList) none
+    (okVal (convert "data".toList (entitySub els "data".toList) []
         [[("dataset".toList, "trees".toList), ("entity_id".toList, "${b}".toList)]] survey)).map
       (fun o => o.nodes.filterMap fun n => n.attrs.lookup "calculate") =
     some [" /data/g/r/b ".toList,
@@ -200,18 +200,124 @@ theorem nodup_map_inj {α β} (f : α → β) : ∀ (l : List α), (l.map f).Nod
     question is unique (`Pyxv.C05.one_bind_per_node`): the `entities:saveto` attribute of a saveto pair
     `(pathOf root st name, v)` therefore sits on *the* bind of that node — two binds addressing the element
     `mkElem root st q` are the same bind. -/
-theorem saveto_on_single_bind (root : Str) (ks : List Binds.RK) (bs : List Binds.Bind)
-    (h : Binds.bindsOfRows root ks = .ok bs) (e : Binds.Elem) (b b' : Binds.Bind)
+theorem saveto_on_single_bind (root : Str) (ks : List Binds.RK) (bs : List Binds.Bind) {extra : List Str}
+    {metas : List Binds.Q} (h : Binds.bindsOfRows root ks metas extra = .ok bs) (e : Binds.Elem) (b b' : Binds.Bind)
     (hb : b ∈ bs) (hb' : b' ∈ bs) (hp : b.path = e.path) (hp' : b'.path = e.path) : b = b' := by
-  have hn := Pyxv.C05.one_bind_per_node root ks bs h
+  have hn := Pyxv.C05.one_bind_per_node root ks metas bs h
   exact nodup_map_inj (·.path) bs hn b hb b' hb' (hp.trans hp'.symm)
+
+/-! ### carrying the attribute through C05's model -/
+
+section Carry
+open Pyxv.Binds
+
+theorem subst_no_dollar (root : Str) (tops : List Str) : ∀ (v : Str), '$' ∉ v → Binds.subst root tops none v = some v
+  | [], _ => rfl
+  | [c], _ => rfl
+  | c1 :: c2 :: cs, h => by
+    have h1 : c1 ≠ '$' := fun e => h (by simp [e])
+    have ih := subst_no_dollar root tops (c2 :: cs) (fun hm => h (by simp [List.mem_cons] at hm ⊢; right; exact hm))
+    unfold Binds.subst
+    rw [if_neg (fun hc => h1 hc.1), ih]
+    rfl
+
+/-- the element of a walked list that has a bind dict gets a bind with the attributes `attrsOf` computes -/
+theorem renderAll_mem (root : Str) (tops : List Str) : ∀ (es : List Elem) (bs : List Bind),
+    renderAll root tops es = some bs → ∀ e ∈ es, ∀ bd, elemBind e.q = some bd →
+      ∃ attrs, attrsOf root tops (Form.xpathStr e.path) e.q.trigger bd = some attrs ∧
+        ({ path := e.path, attrs := attrs } : Bind) ∈ bs := by
+  intro es
+  induction es with
+  | nil => intro bs _ e he; cases he
+  | cons x rest ih =>
+    intro bs h e he bd hbd
+    unfold renderAll at h
+    split at h
+    · cases h
+    · next ob hx =>
+      split at h
+      · cases h
+      · next bs' hr =>
+        simp only [Option.some.injEq] at h
+        subst h
+        simp only [List.mem_cons] at he
+        rcases he with rfl | he
+        · unfold xmlBind at hx
+          rw [hbd] at hx
+          simp only at hx
+          split at hx
+          · cases hx
+          · cases ha : attrsOf root tops (Form.xpathStr e.path) e.q.trigger bd with
+            | none => simp [ha] at hx
+            | some a =>
+              simp only [ha, Option.map_some, Option.some.injEq] at hx
+              subst hx
+              exact ⟨a, rfl, by simp⟩
+        · obtain ⟨a, ha, hm⟩ := ih bs' hr e he bd hbd
+          refine ⟨a, ha, ?_⟩
+          cases ob <;> simp [hm]
+
+/-- table facts: `entities:saveto` is neither the `calculate` key nor convertible nor a message key -/
+theorem saveto_attr_plain :
+    ("entities:saveto".toList = calcKey) = False ∧ convertible "entities:saveto".toList = false ∧
+    msgKeys.contains "entities:saveto".toList = false := by decide
+
+/-- **saveto_carried.**  The attribute travels through C05's model: if the rows (with `entities` declared as an
+    extra prefix, as it is when an entity is declared) yield binds, then for every walked element whose bind
+    dict holds `entities:saveto = v` (a property name: no `$`), there is exactly one bind addressing that
+    element's node, and it carries `entities:saveto="v"`. -/
+theorem saveto_carried (root : Str) (ks : List RK) (bs : List Bind) (extra : List Str) (metas : List Q)
+    (h : bindsOfRows root ks metas extra = .ok bs) (es : List Elem) (hw : Binds.walk root [] ks = some es)
+    (e : Elem) (he : e ∈ es) (v : Str) (hv : '$' ∉ v)
+    (hb : lookup "entities:saveto".toList (rawBind e.q) = some (.s v)) :
+    ∃ b ∈ bs, b.path = e.path ∧ lookup "entities:saveto".toList b.attrs = some v ∧
+      ∀ b' ∈ bs, b'.path = e.path → b' = b := by
+  obtain ⟨es', hw', hr⟩ := Pyxv.C05.bindsOfRows_ok root ks metas bs h
+  rw [hw] at hw'
+  cases hw'
+  have hne : elemBind e.q = some (rawBind e.q) := by
+    unfold elemBind
+    cases hraw : rawBind e.q with
+    | nil => rw [hraw] at hb; simp [lookup] at hb
+    | cons p r => simp
+  obtain ⟨attrs, ha, hm⟩ := renderAll_mem root _ _ bs hr e (by simp [he]) _ hne
+  obtain ⟨p1, p2, p3⟩ := saveto_attr_plain
+  have hl := Pyxv.C05.lookup_attrsOf root _ _ e.q.trigger _ attrs ha "entities:saveto".toList
+  have hd : Pyxv.C05.dropped e.q.trigger "entities:saveto".toList = false := by
+    unfold Pyxv.C05.dropped
+    simp only [p1, decide_false, Bool.and_false]
+  rw [hd, hb] at hl
+  simp only [Bool.false_eq_true, if_false, Option.bind_some, Binds.Spec.value, convVal, p2, p3, Bool.false_and,
+    if_false, Option.bind_some, subst_no_dollar root _ v hv] at hl
+  refine ⟨_, hm, rfl, hl, ?_⟩
+  intro b' hb' hp'
+  exact saveto_on_single_bind root ks bs h e b' _ hb' hm hp' rfl
+
+/-- non-vacuity of `saveto_carried`: with `entities` declared the rows convert and the bind of `/data/a` carries
+    the attribute; without the declaration C05's model refuses the attribute name (as `utils._validate_xml_name` does) -/
+example :
+    (match bindsOfRows "data".toList
+        [.qs [{ name := "a".toList, tt := typeBind "text".toList,
+                bind := some [("entities:saveto".toList, .s "p".toList)], visible := true }]] []
+        ["entities".toList] with
+     | .ok bs => bs.map fun b => (Form.xpathStr b.path, lookup "entities:saveto".toList b.attrs)
+     | _ => []) =
+    [("/data/a".toList, some "p".toList), ("/data/meta/instanceID".toList, none)] := by decide +kernel
+example :
+    (match bindsOfRows "data".toList
+        [.qs [{ name := "a".toList, tt := typeBind "text".toList,
+                bind := some [("entities:saveto".toList, .s "p".toList)], visible := true }]] [] with
+     | .ok _ => true
+     | _ => false) = false := by decide +kernel
+
+end Carry
 
 /-- non-vacuity of `saveto_on_single_bind`: a form C05's model converts, with the bind of `/data/g/n` -/
 example : ∃ bs, Binds.bindsOfRows "data".toList
     [ .qs [{ name := "a".toList, tt := Binds.typeBind "integer".toList, bind := none, visible := true }],
       .begin_ false [] { name := "g".toList, tt := none, bind := some [("relevant".toList, .s "1 = 1".toList)] },
       .qs [{ name := "n".toList, tt := Binds.typeBind "note".toList, bind := none }],
-      .end_ false ] = .ok bs ∧
+      .end_ false ] [] = .ok bs ∧
     ∃ b ∈ bs, b.path = (Binds.mkElem "data".toList [("g".toList, false)]
         { name := "n".toList, tt := Binds.typeBind "note".toList, bind := none }).path := by
   refine ⟨_, rfl, ?_⟩
